@@ -275,7 +275,9 @@ def classify(pid, mechanism, witness, findings):
     for f in findings:
         if f.get('property') != pid or f.get('status') != 'known':
             continue
-        if tuple(f['mechanism']) != tuple(mechanism):
+        fm = tuple(f['mechanism'])
+        if len(fm) != len(mechanism) or any(a != '*' and a != b
+                                            for a, b in zip(fm, mechanism)):
             continue
         if predicate_holds(f.get('predicate'), witness):
             return f
